@@ -937,7 +937,14 @@ impl Instructions<Code, Temporary, Immediate> for Backend {
         match temporary {
             Temporary::Register(register) => instructions.push(Code::MOVI(register, immediate)),
             Temporary::Spill(position) => {
-                instructions.push(Code::MOVIM(STACK, stack_offset(position), immediate));
+                // only `mov r64, imm64` can encode a full 64-bit immediate; the store to memory
+                // takes a sign-extended 32-bit immediate, so larger values go through `TEMP`
+                if i32::try_from(immediate.val).is_ok() {
+                    instructions.push(Code::MOVIM(STACK, stack_offset(position), immediate));
+                } else {
+                    instructions.push(Code::MOVI(TEMP, immediate));
+                    instructions.push(Code::MOVS(TEMP, STACK, stack_offset(position)));
+                }
             }
         }
     }
